@@ -681,11 +681,24 @@ func (e *Engine) Check(c *core.Ctx, filter func(Input) bool) (*core.Outcome, err
 	if c.Replay != nil {
 		return e.replay(c)
 	}
+	if cl := os.Getenv("VERIF_C10_CLASS"); cl != "" {
+		// development aid: restrict the workload to one class (corpus, corpus-config, stress, assembled)
+		var f []Input
+		for _, in := range corpus {
+			if in.Class == cl {
+				f = append(f, in)
+			}
+		}
+		corpus = f
+	}
 	// seeded assembler: random compositions of the stress fragments (a workload generator)
 	if filter == nil {
 		nAsm := 14
 		if c.Tier == "thorough" {
 			nAsm = 200
+		}
+		if v := os.Getenv("VERIF_C10_ASM"); v != "" {
+			fmt.Sscan(v, &nAsm) // development aid: size of the assembled part of the workload
 		}
 		adir := filepath.Join(e.S.Dir, "assembled")
 		_ = os.MkdirAll(adir, 0o755)
